@@ -14,6 +14,9 @@ import WpModel.Model.ImageDraw
 import WpModel.Model.RasterEmbed
 import WpModel.Model.ReplacedDoc
 import WpModel.Lemmas.ReplacedDoc
+import WpModel.Lemmas.ReplacedRtl
+import WpModel.Model.CanvasBg
+import WpModel.Lemmas.ImageId
 
 set_option linter.unusedSimpArgs false
 set_option linter.unusedVariables false
@@ -233,6 +236,48 @@ example : ∃ b x y, docImage false ⟨none, none, none, none, none, none, some 
     ⟨200, false⟩ none 0 0 8 4 2 (8 / 4) = .ok (b, x, y) ∧ b.width = some (8 / 2) ∧ b.height = some (4 / 2) :=
   doc_image_default_size _ _ _ _ _ 8 4 2 (by norm_num) (by norm_num) (by norm_num) rfl rfl rfl rfl rfl rfl
 
+/-- **No declared `image-resolution` can make the intrinsic size divide by zero or come out negative**
+(repair d011d54; finding `image-resolution-zero-division`, filed under C07): the validator keeps a
+resolution only when it is positive, so the computed value is positive for every declaration (valid,
+zero, negative, wrong unit, not a dimension), `RasterImage.get_intrinsic_size` succeeds, and a
+`pw × ph` image with positive sides has a positive intrinsic size.  This discharges the hypothesis
+`0 < res` of `doc_image_default_size` for every document. -/
+theorem image_resolution_positive (declared : Option (Rat × Option Rat)) (pw ph ratio : Rat) :
+    0 < computedResolution declared ∧
+    (∀ v f r, imageResolutionValid v f = some r → 0 < r ∧ ∃ f', f = some f' ∧ r = v * f') ∧
+    (∃ i, rasterIntrinsic pw ph (computedResolution declared) ratio = .ok i ∧
+      (0 < pw → 0 < ph → ∃ w h, i.w = some w ∧ i.h = some h ∧ 0 < w ∧ 0 < h)) := by
+  have hvalid : ∀ v f r, imageResolutionValid v f = some r → 0 < r ∧ ∃ f', f = some f' ∧ r = v * f' := by
+    intro v f r h
+    unfold imageResolutionValid at h
+    rcases f with _ | f'
+    · simp at h
+    · simp only at h
+      split_ifs at h with hp
+      · obtain rfl := Option.some.inj h
+        exact ⟨hp, f', rfl, rfl⟩
+  have hpos : 0 < computedResolution declared := by
+    unfold computedResolution
+    rcases declared with _ | ⟨v, f⟩
+    · norm_num
+    · show 0 < (imageResolutionValid v f).getD 1
+      rcases hv : imageResolutionValid v f with _ | r
+      · simp
+      · simpa using (hvalid v f r hv).1
+  refine ⟨hpos, hvalid, ?_⟩
+  have h0 : computedResolution declared ≠ 0 := ne_of_gt hpos
+  refine ⟨⟨some (pw / computedResolution declared), some (ph / computedResolution declared), some ratio⟩,
+    by simp [rasterIntrinsic, pyDiv, h0, bind, Except.bind, pure, Except.pure], ?_⟩
+  intro hpw hph
+  exact ⟨_, _, rfl, rfl, div_pos hpw hpos, div_pos hph hpos⟩
+
+/-- Regression inputs of the fixed finding: `image-resolution: 0dppx` and `-1dppx` are dropped (the image is
+laid out at the initial 1dppx), `2dppx` and `192dpi` (factor 1/96) are kept, `2px` is not a resolution. -/
+example : computedResolution (some (0, some 1)) = 1 ∧ computedResolution (some (-1, some 1)) = 1 ∧
+    computedResolution (some (2, some 1)) = 2 ∧ computedResolution (some (192, some (1 / 96))) = 2 ∧
+    computedResolution (some (2, none)) = 1 := by
+  refine ⟨?_, ?_, ?_, ?_, ?_⟩ <;> decide +kernel
+
 /-- Percentages: `width`, `min-width`, `max-width`, horizontal margins and paddings of an image resolve
 against the *width* of the containing block; a percentage `height` against its height and to `auto` when
 that height is `auto` (CSS 2.1 10.5). -/
@@ -278,6 +323,56 @@ theorem doc_image_within_min_max (c : CssBox) (cb : Cb) (cbh : Len) (cx py pw ph
 example : (docImage false ⟨some (.pct 100), none, none, none, some (.pct 25), none, none, none, none, none, .px 0, .px 0, 0, 0⟩
     ⟨200, false⟩ none 0 0 8 4 1 (8 / 4)).toOption.map (fun r => (r.1.width, r.1.height)) = some (some 50, some 25) := by
   decide +kernel
+
+/-- **An over-constrained rtl block is shifted exactly once, by the space its *used* width leaves** — also when
+`min-width` / `max-width` clamp the width and `handle_min_max_width` runs `block_level_width` again (repair
+165e254; before it each re-run shifted the already shifted box). -/
+theorem blw_rtl_shift_once (b : RBox) (cb : Cb) (w ml mr : Rat)
+    (hw : b.width = some w) (hml : b.marginLeft = some ml) (hmr : b.marginRight = some mr) (b' : RBox)
+    (h : blockLevelWidth b cb = .ok b') :
+    ∃ w', b' = shifted b cb ml mr w' := by
+  have hb : b = { b with width := some w } := by cases b; simp_all
+  have reset : ∀ x y, resetBox (shifted b cb ml mr x) b y = { b with width := some y } := by
+    intro x y; unfold shifted resetBox; cases b; simp_all
+  let f : RBox → Except Err RBox := fun b => .ok (blwCore b cb)
+  have hf : ∀ x y, f (resetBox (shifted b cb ml mr x) b y) = .ok (shifted b cb ml mr y) := by
+    intro x y; show Except.ok (blwCore _ cb) = _; rw [reset, blwCore_with_width b cb ml mr y hml hmr]
+  have emax : ∀ x, mmwMax f b.marginLeft b.marginRight b.positionX (shifted b cb ml mr x) =
+      (match b.maxWidth with
+        | some m => if x > m then f (resetBox (shifted b cb ml mr x) b m) else .ok (shifted b cb ml mr x)
+        | none => .ok (shifted b cb ml mr x)) := fun x => rfl
+  have emin : ∀ x, mmwMin f b.marginLeft b.marginRight b.positionX (shifted b cb ml mr x) =
+      (if x < b.minWidth then f (resetBox (shifted b cb ml mr x) b b.minWidth) else .ok (shifted b cb ml mr x)) :=
+    fun x => rfl
+  have h' : (do
+      let b1 ← f b
+      let b2 ← mmwMax f b.marginLeft b.marginRight b.positionX b1
+      mmwMin f b.marginLeft b.marginRight b.positionX b2) = .ok b' := h
+  have h1 : f b = .ok (shifted b cb ml mr w) := by
+    show Except.ok (blwCore b cb) = _
+    rw [hb, blwCore_with_width b cb ml mr w hml hmr]
+    unfold shifted; cases b; simp_all
+  simp only [h1, bind, Except.bind] at h'
+  obtain ⟨x, hx⟩ : ∃ x, mmwMax f b.marginLeft b.marginRight b.positionX (shifted b cb ml mr w) =
+      .ok (shifted b cb ml mr x) := by
+    rw [emax]
+    rcases b.maxWidth with _ | m
+    · exact ⟨w, rfl⟩
+    · simp only []
+      split_ifs
+      · exact ⟨m, hf w m⟩
+      · exact ⟨w, rfl⟩
+  rw [hx] at h'
+  simp only [] at h'
+  rw [emin] at h'
+  split_ifs at h'
+  · rw [hf] at h'; exact ⟨_, (Except.ok.inj h').symm⟩
+  · exact ⟨x, (Except.ok.inj h').symm⟩
+
+/-- `width: 200px; max-width: 50px; margin: 0` in a 100px rtl containing block, box at x = 0: the used width is
+50 and the box is moved by 100 − 50 = 50, once (it was −100 + 50 = −50 before the repair). -/
+example : (blockLevelWidth ⟨some 200, none, some 0, some 0, some 0, some 0, 0, 0, 0, 0, 0, some 50, 0, none, 0, false⟩
+    ⟨100, true⟩).toOption.map (fun b => (b.width, b.positionX)) = some (some 50, 50) := by decide +kernel
 
 /-! ## C13.minmax_table — CSS 2.1 10.4, `min_max_auto_replaced` -/
 
@@ -802,5 +897,137 @@ example : (embed ⟨.CMYK, false, .jpeg, true, false, true⟩ ⟨false, false⟩
     some (⟨.CMYK, true, false, true⟩, ⟨"/DeviceCMYK", "/DCTDecode", false, false, true⟩) := by decide +kernel
 
 end Embed
+
+/-! ## C13.canvas_background — `layout_backgrounds`: the propagated background keeps its own computed values -/
+
+/-- The canvas layers are those of the chosen element's style on the page geometry: the page's own style (its
+image-resolution in particular) and the other element's style play no part. -/
+theorem canvas_from_chosen_style (pageG : Geom) (bt br bb bl : Rat) (pageStyle : BgStyle) (rootG : Geom)
+    (rootStyle : BgStyle) (isHtml : Bool) (body : Option (Geom × BgStyle)) (c : Chosen) (ls : List LayerResult)
+    (h : layoutBackgrounds pageG bt br bb bl pageStyle rootG rootStyle isHtml body = .ok (c, ls)) :
+    (c = .nobody ∧ ls = []) ∨
+    ∃ s, canvasFor pageG bt br bb bl s = .ok ls ∧
+      ((c = .root ∧ s = rootStyle) ∨ (c = .body ∧ isHtml = true ∧ ∃ g, body = some (g, s))) := by
+  unfold layoutBackgrounds at h
+  simp only [bind, Except.bind, pure, Except.pure] at h
+  rcases h0 : layoutBoxBackgrounds pageG (.page bt br bb bl) pageG true pageStyle with e | pb
+  · simp [h0] at h
+  simp only [h0] at h
+  rcases h1 : layoutBoxBackgrounds rootG .plain pageG false rootStyle with e | rootBg
+  · simp [h1] at h
+  simp only [h1] at h
+  rcases body with _ | ⟨g, sb⟩
+  · -- no body
+    simp only [chooseCanvas] at h
+    by_cases hr : rootBg == .none
+    · simp [hr] at h; exact Or.inl ⟨h.1.symm, h.2⟩
+    · simp [hr] at h
+      rcases hc : canvasFor pageG bt br bb bl rootStyle with e | l
+      · simp [hc] at h
+      · simp [hc] at h
+        exact Or.inr ⟨rootStyle, by rw [hc, h.2], Or.inl ⟨h.1.symm, rfl⟩⟩
+  · rcases h2 : layoutBoxBackgrounds g .plain pageG false sb with e | bodyBg
+    · simp [h2, Except.map] at h
+    simp only [h2, Except.map, chooseCanvas] at h
+    by_cases hr : rootBg == .none
+    · cases isHtml
+      · simp [hr] at h; exact Or.inl ⟨h.1.symm, h.2⟩
+      · by_cases hb : bodyBg == .none
+        · simp [hr, hb] at h; exact Or.inl ⟨h.1.symm, h.2⟩
+        · simp [hr, hb] at h
+          rcases hc : canvasFor pageG bt br bb bl sb with e | l
+          · simp [hc] at h
+          · simp [hc] at h
+            exact Or.inr ⟨sb, by rw [hc, h.2], Or.inr ⟨h.1.symm, rfl, g, rfl⟩⟩
+    · simp [hr] at h
+      rcases hc : canvasFor pageG bt br bb bl rootStyle with e | l
+      · simp [hc] at h
+      · simp [hc] at h
+        exact Or.inr ⟨rootStyle, by rw [hc, h.2], Or.inl ⟨h.1.symm, rfl⟩⟩
+
+/-- **The canvas background of a raster image is sized with the `image-resolution` of the element it comes
+from**: with `background-size: auto`, no `round` axis, a `pw × ph` px image and the (positive) resolution
+`s.res` of the propagated element's style, the canvas has one layer whose tile is `pw / s.res × ph / s.res`
+— whatever the page's own `image-resolution` — painted over the page's border box. -/
+theorem canvas_tile_uses_own_resolution (pageG : Geom) (bt br bb bl : Rat) (s : BgStyle) (pw ph : Rat)
+    (himg : s.image = some (pw, ph)) (hvis : s.hidden = false) (hsize : s.size = .explicit none none)
+    (hrx : s.rx ≠ .round) (hry : s.ry ≠ .round) (hres : 0 < s.res) (hpw : 0 < pw) (hph : 0 < ph)
+    (ls : List LayerResult) (h : canvasFor pageG bt br bb bl s = .ok ls) :
+    ∃ l lay, ls = [l] ∧ l.layer = some lay ∧ lay.size = (pw / s.res, ph / s.res) ∧
+      boxRectangle pageG .borderBox = .ok l.paintingArea := by
+  have hres0 : s.res ≠ 0 := ne_of_gt hres
+  have hph0 : ph ≠ 0 := ne_of_gt hph
+  unfold canvasFor at h
+  simp only [bind, Except.bind, pure, Except.pure] at h
+  rcases hb : boxRectangle pageG .borderBox with e | border
+  · simp [hb] at h
+  simp only [hb] at h
+  have hl : layoutBoxBackgrounds pageG (.page bt br bb bl) pageG true s =
+      (layoutBackgroundLayer pageG (.page bt br bb bl) pageG (some ⟨some (pw / s.res), some (ph / s.res), some (pw / ph)⟩)
+        s.size s.clip s.rx s.ry s.origin s.pos s.fixed).map (fun l => BoxBg.layers [l]) := by
+    simp [layoutBoxBackgrounds, himg, hvis, pyDiv, hph0, rasterIntrinsic, hres0, bind, Except.bind, pure, Except.pure,
+      Except.map]
+  rw [hl] at h
+  rcases hlay : layoutBackgroundLayer pageG (.page bt br bb bl) pageG
+      (some ⟨some (pw / s.res), some (ph / s.res), some (pw / ph)⟩) s.size s.clip s.rx s.ry s.origin s.pos s.fixed with e | l
+  · simp [hlay, Except.map] at h
+  simp [hlay, Except.map] at h
+  subst h
+  rcases l with ⟨pa, lay⟩
+  rcases lay with _ | lay
+  · -- no layer: only for a zero intrinsic size
+    exfalso
+    have hw : pw / s.res ≠ 0 := ne_of_gt (div_pos hpw hres)
+    have hh : ph / s.res ≠ 0 := ne_of_gt (div_pos hph hres)
+    simp [layoutBackgroundLayer, bind, Except.bind, pure, Except.pure, hw, hh] at hlay
+    repeat' (split at hlay <;> try (simp at hlay))
+  · obtain ⟨_, hc, _⟩ := background_no_round pageG (.page bt br bb bl) pageG _ s.size s.clip s.rx s.ry s.origin s.pos
+      s.fixed pa lay hrx hry hlay
+    rw [hsize] at hc
+    simp [concreteSize, percentageOpt, defaultImageSizing, disSpecified] at hc
+    exact ⟨_, lay, rfl, rfl, hc.symm, rfl⟩
+
+/-- Non-vacuity: `<body>` with a 8 × 4 px image at 2dppx under an `<html>` without background, page style at
+1dppx: the canvas tile is 4 × 2. -/
+example : (layoutBackgrounds ⟨0, 0, 0, 0, 0, 0, 0, 0, 0, 0, 0, 0, 0, 0, 100, 50⟩ 0 0 0 0
+      ⟨none, false, false, 1, .explicit none none, .borderBox, .repeat, .repeat, .paddingBox, ⟨false, .pct 0, false, .pct 0⟩, false⟩
+      ⟨0, 0, 0, 0, 0, 0, 0, 0, 0, 0, 0, 0, 0, 0, 100, 20⟩
+      ⟨none, false, false, 1, .explicit none none, .borderBox, .repeat, .repeat, .paddingBox, ⟨false, .pct 0, false, .pct 0⟩, false⟩
+      true
+      (some (⟨0, 0, 0, 0, 0, 0, 0, 0, 0, 0, 0, 0, 0, 0, 100, 20⟩,
+        ⟨some (8, 4), false, false, 2, .explicit none none, .borderBox, .repeat, .repeat, .paddingBox, ⟨false, .pct 0, false, .pct 0⟩, false⟩))).toOption.map
+    (fun r => (r.1, r.2.map (fun l => l.layer.map (fun y => y.size)))) = some (.body, [some (4, 2)]) := by
+  decide +kernel
+
+/-! ## C13.image_identity — `get_image_from_uri`: one id per distinct (source, orientation, options) -/
+
+open Wp.ImageId in
+/-- Two requests of one document get the same image id exactly when they have the same key. -/
+theorem same_id_iff_same_key (reqs : List Key) (a b : Key) (ha : a ∈ reqs) (hb : b ∈ reqs) :
+    firstSame reqs a = firstSame reqs b ↔ a = b := by
+  constructor
+  · intro h
+    obtain ⟨h1, e1⟩ := firstSame_spec reqs a ha
+    obtain ⟨h2, e2⟩ := firstSame_spec reqs b hb
+    have : reqs[firstSame reqs a] = reqs[firstSame reqs b] := by simp [h]
+    rw [e1, e2] at this
+    exact this
+  · rintro rfl; rfl
+
+open Wp.ImageId in
+/-- Hence two uses are drawn with the same image XObject name `i{id}{interpolate}` exactly when they have the
+same key and the same `image-rendering` class — for any injective naming of the keys (`md5`, trusted) —: the
+same source under two image-orientations is two images. -/
+theorem same_xobject_iff (idOf : Key → String) (hinj : Function.Injective idOf) (a b : Key) (ia ib : Bool) :
+    ImageDedupe.imageName (idOf a) ia = ImageDedupe.imageName (idOf b) ib ↔ a = b ∧ ia = ib := by
+  constructor
+  · intro h
+    obtain ⟨h1, h2⟩ := imageName_injective _ _ _ _ h
+    exact ⟨hinj h1, h2⟩
+  · rintro ⟨rfl, rfl⟩; rfl
+
+open Wp.ImageId in
+example : idClasses [⟨0, 0, 0, 0, 0⟩, ⟨0, 2, 0, 0, 0⟩, ⟨0, 0, 0, 0, 0⟩, ⟨1, 0, 0, 0, 0⟩, ⟨0, 2, 0, 0, 96⟩] = [0, 1, 0, 3, 4] := by
+  decide +kernel
 
 end Wp.C13
